@@ -104,38 +104,45 @@ theorem atom_nil2 (G : String → Prop) (c : CState) (sc : Scope) (rs : List Sco
     rw [cfg_eta k _ hkw hka]; exact Reach.refl _ _
 
 /-- `janetc_do` body: all statements but the last dropped and freed -/
-theorem doBody_correct (G : String → Prop) (T : Expr → Prop) (w : Bool) (fuel : Nat) (IH : CorrectAt p f0 rest V P G T w fuel) :
+theorem doBody_correct (G : String → Prop) (T : Expr → Prop) (w : Bool) (fuel : Nat) (IH : CorrectAt p f0 rest V P G T w fuel)
+    (ML : MLAt G T w fuel) :
     ∀ (b : List Expr), (∀ e, e ∈ b → T e) →
     ∀ (opts : Fopts) (c c' : CState) (slot : JSlot) (sc : Scope) (rs : List Scope) (pool : List KConst) (ps : List (List KConst))
       (n : Nat) (cur : Pos) (env env' : Env) (s s' : SS) (v : Value),
       opts.tail = false → opts.hint = none → c.scopes = sc :: rs → c.pools = pool :: ps → c.lim ≤ 240 → sc.top = false →
+      (w = true → c.map.length = c.buf.length) →
       doBody (cValue fuel) opts b c = some (slot, c') → evalSeq n cur env b s = .ok (v, env') s' → EnvS G c.scopes env s.boxes.size sc.ra →
       Correct2 p f0 rest V P G (opts.drop && w) c c' slot sc rs pool ps env env' s s' v := by
   intro b
   induction b with
   | nil =>
-    intro _ opts c c' slot sc rs pool ps n cur env env' s s' v _ _ hs hp _ _ hc hsem hE
+    intro _ opts c c' slot sc rs pool ps n cur env env' s s' v _ _ hs hp _ _ _ hc hsem hE
     simp only [doBody, Option.some.injEq, Prod.mk.injEq] at hc
     obtain ⟨h1, h2⟩ := hc
     obtain ⟨e1, e2, e3⟩ := evalSeq_nil_inv n cur env env' s s' v hsem
     subst h1 h2 e1 e2 e3
     exact Correct2.weaken p f0 rest V P _ (atom_nil2 p f0 rest V P G _ sc rs pool ps hs hp _ _ hE)
   | cons x t ih =>
-    intro hT opts c c' slot sc rs pool ps n cur env env' s s' v ht hh hs hp hl htop hc hsem hE
+    intro hT opts c c' slot sc rs pool ps n cur env env' s s' v ht hh hs hp hl htop hm hc hsem hE
     cases t with
     | nil =>
       simp only [doBody] at hc
       obtain ⟨n2, hn, he⟩ := evalSeq_one_inv n cur env env' x s s' v hsem
-      exact IH x opts c c' slot sc rs pool ps n2 cur env env' s s' v ht hh hs hp hl htop (hT x (by simp)) hc he hE
+      exact IH x opts c c' slot sc rs pool ps n2 cur env env' s s' v ht hh hs hp hl htop hm (hT x (by simp)) hc he hE
     | cons y r =>
       simp only [doBody, Option.bind_eq_bind, Option.bind_eq_some_iff, Prod.exists] at hc
       obtain ⟨sl1, c1, hx, c1f, hf, hrest⟩ := hc
       obtain ⟨n2, v1, env1, s1, hn, he1, he2⟩ := evalSeq_cons_inv n cur env env' x y r s s' v hsem
-      have h1 := IH x { drop := true } c c1 sl1 sc rs pool ps n2 cur env env1 s s1 v1 rfl rfl hs hp hl htop (hT x (by simp)) hx he1 hE
+      have h1 := IH x { drop := true } c c1 sl1 sc rs pool ps n2 cur env env1 s s1 v1 rfl rfl hs hp hl htop hm (hT x (by simp)) hx he1 hE
+      have hm1 : w = true → c1f.map.length = c1f.buf.length := by
+        intro hw
+        obtain ⟨e1, e2⟩ := freeslot_bufmap c1 c1f sl1 hf
+        rw [e1, e2]
+        exact ML hw x { drop := true } c c1 sl1 sc rs pool ps env s.boxes.size rfl rfl hs hp htop (hT x (by simp)) hE hx (hm hw)
       refine Correct2_seq p f0 rest V P G (true && w) (opts.drop && w) c c1 c1f c' sl1 slot sc rs pool ps env env1 env' s s1 s' v1 v h1 hf ?_
       intro sc1 pool1 hs1 hp1 htop1 hl1 hE1
       exact ih (fun e he => hT e (by simp [he])) opts c1f c' slot sc1 rs pool1 ps n2 cur env1 env' s1 s' v ht hh hs1 hp1
-        (by rw [hl1]; exact hl) (by rw [htop1]; exact htop) hrest he2 hE1
+        (by rw [hl1]; exact hl) (by rw [htop1]; exact htop) hm1 hrest he2 hE1
 
 /-! ### block scopes -/
 
@@ -203,10 +210,12 @@ theorem popScopeKeep_block (c2 c3 : CState) (r : JSlot) (old sc : Scope) (rs : L
     exact ⟨raX, h.symm, hmax, hmono, fun i hi => by simp at hi⟩
 
 /-- `janetc_do`: block scope around the body -/
-theorem do_core (G : String → Prop) (T : Expr → Prop) (w : Bool) (fuel : Nat) (IH : CorrectAt p f0 rest V P G T w fuel) (body : List Expr) (hT : ∀ e, e ∈ body → T e)
+theorem do_core (G : String → Prop) (T : Expr → Prop) (w : Bool) (fuel : Nat) (IH : CorrectAt p f0 rest V P G T w fuel) (ML : MLAt G T w fuel)
+    (body : List Expr) (hT : ∀ e, e ∈ body → T e)
     (opts : Fopts) (c c' : CState) (slot : JSlot) (sc : Scope) (rs : List Scope) (pool : List KConst) (ps : List (List KConst))
     (n : Nat) (cur : Pos) (env envb : Env) (s s' : SS) (v : Value)
     (ht : opts.tail = false) (hh : opts.hint = none) (hs : c.scopes = sc :: rs) (hp : c.pools = pool :: ps) (hl : c.lim ≤ 240)
+    (hm : w = true → c.map.length = c.buf.length)
     (hc : cDo (cValue fuel) opts body c = some (slot, c')) (hsem : evalSeq n cur env body s = .ok (v, envb) s')
     (hE : EnvS G c.scopes env s.boxes.size sc.ra) :
     Correct2 p f0 rest V P G (opts.drop && w) c c' slot sc rs pool ps env env s s' v := by
@@ -222,8 +231,8 @@ theorem do_core (G : String → Prop) (T : Expr → Prop) (w : Bool) (fuel : Nat
   have hE1 : EnvS G ({ c with scopes := nw :: sc :: rs } : CState).scopes env s.boxes.size nw.ra :=
     hE.of_lk hlk1 (Nat.le_refl _) (fun _ _ _ _ _ _ _ h => h)
   obtain ⟨ra2, ns2, more2, seg2, segm2, hc2, pv2, mono2, max2, sok2, bx2, es2, nf2, vm2⟩ :=
-    doBody_correct p f0 rest V P G T w fuel IH body hT opts { c with scopes := nw :: sc :: rs } c2 r nw (sc :: rs) pool ps n cur env envb s s' v
-      ht hh rfl hp hl rfl hbody hsem hE1
+    doBody_correct p f0 rest V P G T w fuel IH ML body hT opts { c with scopes := nw :: sc :: rs } c2 r nw (sc :: rs) pool ps n cur env envb s s' v
+      ht hh rfl hp hl rfl hm hbody hsem hE1
   have hs2 : c2.scopes = { nw with ra := ra2, syms := nw.syms ++ ns2 } :: sc :: rs := by rw [hc2]
   obtain ⟨raX, hc3, hmaxX, hmonoX, hkeepX⟩ :=
     popScopeKeep_block c2 c3 r { nw with ra := ra2, syms := nw.syms ++ ns2 } sc rs hs2 rfl rfl rfl hpop
